@@ -90,6 +90,18 @@ func (p *Prog) a1Func(f *ssa.Function) []a1Result {
 			out = append(out, a1Result{c, callee, "excepted", fate, r})
 			continue
 		}
+		// an unexported helper that serves only a function with a reviewed deviation for the same callee inherits it
+		inherited := false
+		for _, e := range a1Exceptions {
+			if e.callee == callee && e.fn != fn && p.isOrServesOnly(f, e.fn) {
+				out = append(out, a1Result{c, callee, "excepted", fate, e.reason + " (in a helper that serves only " + e.fn + ")"})
+				inherited = true
+				break
+			}
+		}
+		if inherited {
+			continue
+		}
 		out = append(out, a1Result{c, callee, "violated", fate, ""})
 	}
 	return out
